@@ -86,7 +86,7 @@ def leaf(cls, shape, rs, regime, key):
     if cls in ("Exp", "SoftPlus", "Tanh", "Identity", "Flip"):
         return getattr(bj, cls)(shape)
     if cls == "LeakyTanh":
-        return bj.LeakyTanh([1.0, 3.0, 0.5, 2.0][var], shape)
+        return bj.LeakyTanh([1.0, 3.0, 0.5, 2.0, 20.0][var], shape)       # corner: tanh(max_val) rounds to 1.0
     if cls == "Permute":
         return bj.Permute(rs.permutation(n).reshape(shape))
     if cls in ("RationalQuadraticSpline", "RationalQuadraticSplineOffCentre"):
@@ -195,6 +195,7 @@ def boundary_points(cls, b, shape, rs):
         vec([0.0, 1e3, -1e3], "magnitude")
     elif cls in ("Tanh", "Exp", "SoftPlus"):
         vec([0.0, 4.0, -4.0], "moderate")
+        vec([8.0, -9.0, 15.0, -18.0], "saturating")          # tanh within 1e-6 .. 1e-15 of +-1, still below it
         vec([1.0, -1.0, np.nextafter(1.0, 0), np.nextafter(0.0, 1), -1e-300], "primitive-singularity")
         vec([50.0, -50.0, 800.0, -800.0, 1e3, -1e3, 1e4, -1e4], "magnitude")       # exp / expm1 overflow thresholds
     else:
@@ -364,7 +365,7 @@ def specs(tier: str, seed: int, tlc_cases: list | None = None):
             regimes.append("negscale")
         if cls in ("BlockAutoregressiveNetworkDeep", "MaskedAutoregressiveWide"):
             regimes.append("wild")
-        if cls == "BlockAutoregressiveNetworkDeep":
+        if cls in ("BlockAutoregressiveNetworkDeep", "LeakyTanh"):
             regimes.append("corner")
         if cls == "MaskedAutoregressiveWide":
             regimes.append("negscale")
